@@ -103,6 +103,94 @@ def scenarios(tier):
 
 
 # ---------------------------------------------------------------------------------------------
+# wired family: spec/AttesterAM.tla (attester + account manager + validators manager records),
+# Scen_AttesterAM.tla, Trace_AttesterAM.tla, TestVerifC01Wired (real dirk / wallet account manager, real
+# validators manager, real signer behind the real attester)
+# ---------------------------------------------------------------------------------------------
+WIRED_TEST = "TestVerifC01Wired"
+WIRED_TRACE = ("Trace_AttesterAM", "Trace_AttesterAM.cfg")
+WSHAPE_SC = 20001
+WIRED_SC = 30001
+
+
+def wired_driver(scenarios, tag):
+    return vf.run_driver(PID, PKG, WIRED_TEST, scenarios, "wired-" + tag)
+
+
+def wired_sig(s):
+    # same keys as sig_of: a wired history never matches the attester-level finding
+    return {"mode": "wired", "strategy": "", "target_below_duty_epoch": False, "am": s["steps"][0].get("am"),
+            "family": s["steps"][0].get("mode")}
+
+
+def wired_nontrivial(s, rows):
+    # the antecedent the fake account manager could not reach: the REAL account manager was asked by a run whose
+    # validators were all marked already (empty index list), or for a part of its duty only (partial list)
+    n = {}
+    for r in rows:
+        if r["ev"] == "Deliver":
+            n[r["run"]] = len(set(r["duty"]["vals"]))
+        if r["ev"] == "Accounts" and len(r["req"]) < n.get(r["run"], 0):
+            return True
+    return False
+
+
+def wired_scenarios(tier):
+    """Histories for the wired stack.  (a) enumerated exhaustively by TLC (Scen_AttesterAM, mode wshape): for each
+    sibling account manager, a run that marks any non-empty subset S of the duty validators, optionally a refresh
+    (an account dropped / a validator the node no longer knows), then a duty over any non-empty T in the same epoch,
+    same slot or later: T inside S is the re-delivered duty whose validators are ALL marked.  (b) TLC-simulated
+    multi-run histories (mode wired): half of the deliveries are re-deliveries, refreshes with random accounts and
+    records, direct questions with empty / repeated / unknown index lists, node / signer / submitter failures."""
+    cfg = "Scen_AttesterAM_wshape.cfg" if tier == "quick" else "Scen_AttesterAM_wshapebig.cfg"
+    hs = vf.tlc_scenarios(PID, "Scen_AttesterAM", cfg, exhaustive=True, workers=4, timeout=900, name="scen-wshape")
+    hs = sorted(hs, key=lambda h: json.dumps(h, sort_keys=True))
+    out = [{"sc": WSHAPE_SC + i, "kind": "wired", "steps": h} for i, h in enumerate(hs)]
+    want = 60 if tier == "quick" else 800
+    ws = vf.tlc_scenarios(PID, "Scen_AttesterAM", "Scen_AttesterAM_wired.cfg", num=(30 if tier == "quick" else 400), depth=100,
+                          timeout=300 if tier == "quick" else 900, name="scen-wired")
+    return out + [{"sc": WIRED_SC + i, "kind": "wired", "steps": h} for i, h in enumerate(ws[:want])]
+
+
+def wired_conformance(v, sc):
+    # replay directories of this block are numbered from 201
+    orig = vf.save_replay
+    vf.save_replay = lambda pid, n, *a: orig(pid, n + 200, *a)
+    try:
+        vf.conformance(v, sc, wired_driver, WIRED_TRACE[0], WIRED_TRACE[1], wired_sig, wired_nontrivial, dfs=True,
+                       chunk=None if len(sc) < 400 else 400)
+    finally:
+        vf.save_replay = orig
+
+
+def _expect_am_rejected(cfg, inv, timeout=600):
+    """A control design of the account manager (AttesterAM!Deviate, for ONE of the sibling implementations) must be
+    rejected by TLC: otherwise the histories of the model never reach the contract the attester relies on."""
+    r = vf.tlc(PID, "mc-" + cfg.replace(".cfg", ""), "MC_AttesterAM", cfg, workers=2, timeout=timeout, heap="2g")
+    if r["timed_out"] or r["kind"] != "invariant" or r["violated"] != inv:
+        raise vf.Broken("%s should violate %s (vacuous account manager model?): %s %s\n%s" % (cfg, inv, r["kind"], r["violated"], r["out"][-1500:]))
+    vf.log("TLC MC_AttesterAM/%s: %s violated as it must be (%d distinct states, %.1fs)" % (cfg, inv, r["distinct"], r["wall_s"]))
+
+
+def am_model(tier, out):
+    """The composition attester + account manager + validators manager records (fourth thread): every C01 invariant,
+    SignOnlyClaimed and the ByIndex contract for EACH sibling implementation, refreshes before any lookup; the control
+    designs - an empty index list read as "no restriction" (dirk alone, wallet alone), the indices ignored - rejected."""
+    try:
+        res = [vf.tlc_exhaustive(PID, "MC_AttesterAM", "MC_AttesterAM.cfg", workers=4, timeout=900, heap="3g"),
+               vf.tlc_exhaustive(PID, "MC_AttesterAM", "MC_AttesterAM_ask.cfg", workers=2, timeout=600, heap="2g")]
+        _expect_am_rejected("MC_AttesterAM_empty_all_dirk.cfg", "NoDoubleSign")
+        _expect_am_rejected("MC_AttesterAM_empty_all_wallet.cfg", "NoDoubleSign")
+        _expect_am_rejected("MC_AttesterAM_ignore_indices.cfg", "NoDoubleSign")
+        _expect_am_rejected("MC_AttesterAM_ask_empty_all.cfg", "ByIndexSubset")
+        if tier == "thorough":
+            res.append(vf.tlc_exhaustive(PID, "MC_AttesterAM", "MC_AttesterAM_big.cfg", workers=4, timeout=1800, heap="4g"))
+        out["mc"] = res
+    except BaseException as e:      # re-raised by the caller
+        out["err"] = e
+
+
+# ---------------------------------------------------------------------------------------------
 # system level: spec/Vouch.tla, Scen_Vouch.tla, Trace_Vouch.tla, TestVerifVouch
 # ---------------------------------------------------------------------------------------------
 VOUCH_PKG = "./services/controller/standard"
@@ -264,22 +352,22 @@ def run_vouch(v, tier):
 
 def vouch_model_start(tier):
     """The exhaustive runs of the composition go on beside everything else of the check."""
-    out, neg, shp = {}, {}, {}
+    out, neg, shp, am = {}, {}, {}, {}
     ths = [threading.Thread(target=vouch_model, args=(tier, out)), threading.Thread(target=vouch_model_neg, args=(tier, neg)),
-           threading.Thread(target=shape_model, args=(tier, shp))]
+           threading.Thread(target=shape_model, args=(tier, shp)), threading.Thread(target=am_model, args=(tier, am))]
     for th in ths:
         th.start()
-    return ths, out, neg, shp
+    return ths, out, neg, shp, am
 
 
 def vouch_model_join(v, started):
-    ths, out, neg, shp = started
+    ths, out, neg, shp, am = started
     for th in ths:
         th.join()
-    for o in (out, neg, shp):
+    for o in (out, neg, shp, am):
         if "err" in o:
             raise o["err"]
-    for r in out["mc"] + neg["mc"] + shp["mc"]:
+    for r in out["mc"] + neg["mc"] + shp["mc"] + am["mc"]:
         v.add_mc(r)
 
 
@@ -315,8 +403,13 @@ def run(tier):
         "schedules attestation jobs for the current and next epoch only)",
         "Env_DutyWellFormed: a duty has at least one entry (attester.MergeDuties makes none without), arrays parallel, every "
         "committee has a size; NOT assumed: distinct validators (a duty is a sequence of entries that may repeat a validator)",
-        "Env_AccountsSubset: the account manager returns accounts of requested validators only",
-        "chain time, beacon nodes, account manager, signer and submitter are scripted fakes at the service's interfaces",
+        "Env_AccountsSubset (fake-based families only): the scripted account manager returns accounts of requested validators only; "
+        "in the wired family the REAL dirk / wallet account manager (over the real validators manager) answers and the contract "
+        "is an obligation (AttesterAM!ByIndexSubset, SignOnlyClaimed), the control designs that break it are rejected by TLC",
+        "fake-based families: chain time, beacon nodes, account manager, signer and submitter are scripted fakes at the service's "
+        "interfaces; wired family: real account manager (dirk with scripted wallet listing - no Dirk server -, wallet over a "
+        "filesystem store), real validators manager over a scripted beacon node, real signer with real BLS keys; scripted "
+        "attestation data node and submitter",
     ]
     started = vouch_model_start(tier)
     try:
@@ -346,6 +439,7 @@ def _run(v, tier, started):
     sc = scenarios(tier)
     vf.conformance(v, sc, driver, TRACE[0], TRACE[1], sig_of, nontrivial, dfs=True,
                    chunk=None if tier == "quick" else 600)
+    wired_conformance(v, wired_scenarios(tier))
     run_vouch(v, tier)
     th.join()
     if "err" in att:
@@ -361,7 +455,12 @@ def _run(v, tier, started):
                           "sequence of entries over the validators incl. repeats in the same / another committee, on a fresh or "
                           "pre-marked instance, any subset without account / unsigned); the signer requests are judged position by "
                           "position of every recorded call; non-trivial = a validator delivered twice in an epoch (two duties or two "
-                          "entries of one) or data violating the rule reached the service; distinct by step list and mode.  System level: environment "
+                          "entries of one) or data violating the rule reached the service; distinct by step list and mode.  Wired family "
+                          "(AttesterAM.tla): the same kind of histories on ONE wired instance - real attester, real dirk / wallet account "
+                          "manager, real validators manager, real signer -, re-delivered duties enumerated exhaustively per sibling "
+                          "implementation (any marked subset x any duty of the same epoch x refresh in between) plus simulated histories "
+                          "with refreshes and direct ByIndex questions; non-trivial = the real account manager was asked by a run with an "
+                          "empty or partial index list (validators of the duty already marked).  System level: environment "
                           "parts (clock, head events, reorgs, slow attestation data, fast track on/off) of TLC-simulated behaviours "
                           "of Vouch.tla replayed in real time on the real controller + real scheduler + real attester; non-trivial = "
                           "a refresh withdrew a waiting job, the fast track started one, or a job body outlived its slot")
@@ -374,6 +473,9 @@ def replay(path):
         s = json.load(fh)
     if s.get("kind") == "vouch":
         vouch_conformance(v, [s])
+        return 1 if v.violations else 0
+    if s.get("kind") == "wired":
+        wired_conformance(v, [s])
         return 1 if v.violations else 0
     vf.conformance(v, [s], driver, TRACE[0], TRACE[1], sig_of, nontrivial, dfs=True)
     return 1 if v.violations else 0
